@@ -93,7 +93,8 @@ def _run_main(ctx):
         r.check('sealed-assignment:count', n == 1, None, built=n)
         adt = ctx.adt('serialize::SealableOutputBuffer')
         flds = {f['name']: f for f in adt['variants'][0]['fields']}
-        r.check('fields-private', all(f['vis'] == 'restricted(serialize)' for f in flds.values()), None, built={k: v['vis'] for k, v in flds.items()},
+        home = {'serialize'} | set(n.rsplit('::', 1)[0] for n, m_ in (ctx.facts.get('meta', {}).get('adt_moves') or {}).items() if m_ == 'serialize::SealableOutputBuffer')
+        r.check('fields-private', all(f['vis'] in ['restricted(%s)' % h for h in home] for f in flds.values()), None, built={k: v['vis'] for k, v in flds.items()},
                 expected='buf and sealed private to module serialize')
         inner = ctx.adt('io_loop::Inner')
         ob = [f for f in inner['variants'][0]['fields'] if f['name'] == 'outbuf']
